@@ -2,7 +2,9 @@
 
 Tie: workspaces under git in every state (clean, modified, staged, untracked, ignored, no repository, nested repository,
 work tree root above the files, .git as a file) x {content fix, move} x spellings of the arguments (absolute, relative, from a
-sub-directory, several arguments), run through the real binary WITHOUT --force.
+sub-directory, several arguments) x how the workspace is reached (real path; through a symbolic link that is the repository /
+the argument itself; through a link that is a parent directory; through a link inside the work tree), run through the real
+binary WITHOUT --force.
   * correspondence: the model (find_git_repo over the tree + the gate over go-git's status keys, obtained through regal's own
     GetChangedFiles in an overlay test) must predict the verdict and the tree after the run;
   * predicate on the implementation alone: every file whose bytes changed or disappeared was restorable from HEAD of its
@@ -46,6 +48,12 @@ def git_term(r, g):
         repo_term(g['repo']))
 
 
+def modelled(r):
+    """workspaces with a symbolic link INSIDE the work tree are outside the model (its tree has one name per file): they
+    only go through the predicate"""
+    return not r['ws'].get('symlinks')
+
+
 def predicate(r):
     """violations of C14 visible in the snapshots and the git CLI's answers alone"""
     ws = r['ws']
@@ -58,7 +66,9 @@ def predicate(r):
         for rel, txt in sorted(before['files'].items()):
             if after['files'].get(rel) != txt and not r['restorable'].get(rel, False):
                 st = ((ws.get('git') or {}).get('states') or {}).get(rel)
-                if not (ws.get('git') or {}).get('repo_dirs'):
+                if ws.get('symlinks'):
+                    st = 'reached-through-symlink-inside-worktree'
+                elif not (ws.get('git') or {}).get('repo_dirs'):
                     st = 'no-repository'
                 elif st is None:
                     st = 'outside-repository' if not any(c13.contains(d, rel) for d in ws['git']['repo_dirs']) else 'clean?'
@@ -125,7 +135,9 @@ def run(ctx):
         rp = json.load(open(ctx.replay))
         replay_ws = (rp.get('case') or {}).get('ws')
     results, gits = run_steps(ctx, replay_ws)
-    g1, g2 = eval_cases(ctx, results, gits)
+    mod_ix = [i for i, r in enumerate(results) if modelled(r)]
+    m1, m2 = eval_cases(ctx, [results[i] for i in mod_ix], [gits[i] for i in mod_ix])
+    g1, g2 = [mod_ix[i] for i in m1], [mod_ix[i] for i in m2]
 
     hist, nviol = {}, 0
     for r in results:
@@ -136,9 +148,14 @@ def run(ctx):
     for i, r in enumerate(results):
         for kind, detail in predicate(r):
             pred_hits['%s:%s' % (kind, detail)] = pred_hits.get('%s:%s' % (kind, detail), 0) + 1
-            if nviol >= 3 and not (kind == 'changed-unrestorable-file' and detail == 'ignored'):
+            if nviol >= 3 and not (kind == 'changed-unrestorable-file' and detail in ('ignored', 'reached-through-symlink-inside-worktree')):
                 continue
             raised = vlib.violation(ctx, {'kind': kind, 'detail': detail, 'case': {'ws': r['ws']}, 'cmd': r['cmd'], 'cwd': r['cwd'], 'exit': r['exit'],
+                                          'reached': ({'link': '<workspace>/link -> real; every path of the command goes through the link; the work tree is <workspace>/real',
+                                                       'link-parent': '<workspace>/link -> <workspace>/real (absolute target); the command uses <workspace>/link/mid/..., '
+                                                                      'the work tree is <workspace>/real/mid'}.get(r['ws'].get('via') or '', 'by its real path')
+                                                      + ('; symbolic links inside the work tree: %r' % r['ws']['symlinks'] if r['ws'].get('symlinks') else '')),
+                                          'find_git_repo': gits[i]['repo'],
                                           'stderr': r['stderr'][:400], 'porcelain': r.get('porcelain'),
                                           'changed': sorted(p for p, t in r['before']['files'].items() if r['after']['files'].get(p) != t),
                                           'what': 'regal fix without --force changed a file that git cannot restore' if kind == 'changed-unrestorable-file'
@@ -156,19 +173,26 @@ def run(ctx):
     proof_gate(ctx)
 
     distinct = len({json.dumps([r['ws']['files'], r['ws'].get('git'), r['ws']['args'], r['ws'].get('cwd'), r['ws']['abs_args'],
-                                r['ws'].get('no_force'), r['ws']['dry_run'], r['ws']['policy']], sort_keys=True) for r in results})
+                                r['ws'].get('no_force'), r['ws']['dry_run'], r['ws']['policy'], r['ws'].get('via'), r['ws'].get('symlinks')],
+                               sort_keys=True) for r in results})
+    reach = {}
+    for r in results:
+        k = r['ws'].get('via') or ('symlink-inside-worktree' if r['ws'].get('symlinks') else 'real-path')
+        reach[k] = reach.get(k, 0) + 1
     cov = proof_coverage(ctx, {
-        'evaluations': len(results) * 2,
+        'evaluations': len(mod_ix) * 2 + (len(results) - len(mod_ix)),
         'distinct_nontrivial': distinct,
         'rule': 'distinct (files, git states, repository layout, arguments, cwd, flags) workspaces run through the real binary; each gives one '
                 'FindGitRepo comparison and one verdict+tree comparison',
-        'runs': len(results), 'outcome_histogram': hist, 'mismatch_find_git_repo': len(g1), 'mismatch_verdict_or_tree': len(g2),
+        'runs': len(results), 'runs_compared_with_model': len(mod_ix), 'reached_through': reach, 'outcome_histogram': hist, 'mismatch_find_git_repo': len(g1), 'mismatch_verdict_or_tree': len(g2),
         'predicate_hits': pred_hits,
         'samples': [{'name': r['ws']['name'], 'cmd': r['cmd'], 'exit': r['exit'], 'repo': g['repo'], 'status': g['status'], 'porcelain': r.get('porcelain')}
                     for r, g in list(zip(results, gits))[:3]],
         'exhaustive': False,
     })
     return vlib.finish(ctx, 'proof', cov, [
+        'symbolic links: the model works on paths as spelled (a linked directory is the directory it resolves to, under the spelled name); '
+        'it has no notion of resolution, as the implementation has none. Workspaces with a link inside the work tree only go through the predicate',
         "go-git's status computation is an oracle: the key set returned by regal's GetChangedFiles is taken as given (it omits ignored files)",
         'os.Stat/filepath functions are modelled (Base/PathModel.v, Model/Commit.v fs_stat), validated by this correspondence only',
         'restorability is judged with the git CLI (git show HEAD:path) before the run',
